@@ -78,7 +78,7 @@ ASSUMPTIONS = [
 TRUSTED = ["shapely/GEOS predicates are not modelled; their answers enter the model as parameters and are checked by the oracle"]
 # composition with C06's index model: Env.cen / Env.shp := find_lanelet_by_position / find_lanelet_by_shape on a built network;
 # the geometric sentence with only the primitive predicates within / meets left as parameters (built + audited every run)
-EXTRA_MODULES = ["CRProps.C07b", "CRProps.C07c"]
+EXTRA_MODULES = ["CRProps.C07b", "CRProps.C07c", "CRProps.T07"]
 REQUIRED_BUCKETS = ["entry/assign", "entry/reopen-xml", "entry/reopen-pb", "kind/static", "kind/traj", "kind/none", "kind/set", "geo/composed-compared",
                     "shape/rect", "shape/rect-rotated", "shape/circ", "shape/poly", "shape/group",
                     "geo/shape-beyond-center", "geo/touching", "geo/off-road", "geo/multi-lanelet-center",
